@@ -65,9 +65,12 @@ Same(what, got, want) ==
   IF got = want THEN TRUE
   ELSE PrintT(<<"MISMATCH", what, "line", l, "n", Log[l].n, "spec", got, "impl", want>>) /\ FALSE
 
+(* a process that is not in the cache (evicted, or removed after its terminal *)
+(* event) has no live image to compare; the specification's is unchanged       *)
 PostOK(r) ==
   /\ \A pid \in DOMAIN r.post.procs :
-        Same(<<"proc", pid>>, SpecProc(pid, procs', queue'), LogProc(r.post.procs[pid]))
+        \/ ~r.post.procs[pid].cached /\ procs'[pid].st # "absent" /\ procs'[pid].ts # <<>>
+        \/ Same(<<"proc", pid>>, SpecProc(pid, procs', queue'), LogProc(r.post.procs[pid]))
   /\ Same("jobs", SpecJobs(spawn'), LogJobs(r.post.jobs))
   /\ Same("clock", now', r.post.now)
   /\ Same("messages", SpecOut(lastOut'), LogOut(r.gens))
@@ -136,9 +139,15 @@ TraceExec ==
 TraceAct ==
   /\ IsStep("Act")
   /\ LET r == Log[l] IN
-     /\ Act(r.pid, r.t, r.kind, [ecode |-> r.opts.ecode, to |-> r.opts.to])
+     /\ \/ Act(r.pid, r.t, r.kind, [ecode |-> r.opts.ecode, to |-> r.opts.to])
+        \/ ActGone(r.pid, r.t, r.kind, [ecode |-> r.opts.ecode, to |-> r.opts.to])
      /\ Same("result", lastRes', LogRes(r))
      /\ PostOK(r)
+
+TraceEvict ==
+  /\ IsStep("Evict")
+  /\ Evict(Log[l].pid)
+  /\ PostOK(Log[l])
 
 TraceTick ==
   /\ IsStep("Tick")
@@ -159,7 +168,7 @@ TraceInit ==
   /\ l = 1 /\ sc = 0
 
 TraceNext == TraceModel \/ TraceSkip \/ TraceStartCall \/ TraceLaunch \/ TraceExec \/ TraceAct
-             \/ TraceTick \/ TraceAdvance
+             \/ TraceTick \/ TraceAdvance \/ TraceEvict
 
 TraceSpec == TraceInit /\ [][TraceNext]_tvars
 
